@@ -43,7 +43,7 @@ NOTES = (
 # Properties not claimed. Kept current: an id is dropped from this table when a
 # check for it is registered in PROPS.
 NOT_APPLICABLE = {
-	"C03": "unbounded resource property (stack use independent of nesting depth up to 10^6 levels, no overflow): bounded model checking says nothing beyond a handful of unwindings and whole-document parsing does not fit in CBMC even at depth 1; panic-freedom/single-pass of the parser units is reported as a by-product under C01/C07",
+	"C03": "unbounded resource property (stack use independent of nesting depth up to 10^6 levels, no stack overflow, termination on inputs of any length): a bounded technique says nothing about it — the driver check (MIR + z3) covers documents of <= 9 characters, i.e. nesting depth <= 9, and CBMC does not take whole-document parsing even at depth 1. Within those bounds, absence of panics and single-pass consumption of the parser units and of the driver loop are by-products reported under C01/C07 (a reachable panic is a failed check there); the claim that matters in C03, independence from depth, is not bounded and belongs to a proof about the explicit stack, not to a solver query",
 	"C15": "mutual recursion of unordered_eq over heap Value/Object trees: the smallest non-trivial instances (2 entries per side; 3 for multiplicities) did not finish in 30-68 min under CBMC; what fits (scalars, 1-entry objects) does not exercise the property",
 	"C16": "serde derive/visitor plumbing (dyn dispatch), heap containers and float<->text conversion are outside CBMC's reach at any bound that completes",
 	"C17": "same as C16; additionally rooted in json-number's lexical float parsing (symbolic-by-symbolic multiplication, floating point)",
